@@ -92,13 +92,25 @@ class Collector:
         self.extra = {}
 
     def record(self, case, outcome):
-        self.evaluations += 1
+        self.evaluations += outcome.get("evals", 1)
         for c in outcome.get("classes", ()):
             self.classes[c] += 1
         if outcome.get("nontrivial"):
-            fp = fingerprint(case)
-            if fp not in self.nontrivial:
-                self.nontrivial.add(fp)
+            keys = outcome.get("nontrivial_keys")
+            if keys is not None:
+                fresh = False
+                for k in keys:
+                    h = hashlib.sha1(str(k).encode()).hexdigest()[:16]
+                    if h not in self.nontrivial:
+                        self.nontrivial.add(h)
+                        fresh = True
+                fp = None if fresh else next(iter(self.nontrivial))
+            else:
+                fp = fingerprint(case)
+                fresh = fp not in self.nontrivial
+            if fresh:
+                if fp is not None:
+                    self.nontrivial.add(fp)
                 if len(self.samples) < 3:
                     s = outcome.get("sample", case)
                     txt = canon_json(s)
